@@ -1,8 +1,8 @@
 CONSTANT MaxMods = 3
 CONSTANT MinMods = 2
-CONSTANT Spells <- AllSpells
+CONSTANT Spells <- OnePlain
 CONSTANT Places <- AllPlaces
-CONSTANT Agains <- NoAgain
+CONSTANT Agains <- SomeAgain
 CONSTANT Layouts <- NoSub
 INIT Init
 NEXT Next
